@@ -26,7 +26,7 @@ def budget(tier):
 
 
 def strategy(tier):
-    return gen_spec(**{**tier_opts(tier), **dict(allow_rels=True, allow_rdep=True, sched="eager", min_trans=2, max_trans=5, allow_data=False, allow_alias=False, nonex_rate=2)})
+    return gen_spec(**{**tier_opts(tier), **dict(allow_rels=True, allow_rdep=True, sched="eager", min_trans=2, max_trans=5, allow_alias=False, nonex_rate=2)})
 
 
 def run_case(case):
